@@ -103,30 +103,60 @@ def _is_exec_list(n):
 def canon_tree(tree, depth=0, strict=False):
     """astcanon.root_canon, with one refinement: the text of a `( ... )` subshell (xonsh hands it as a
     raw string to `xonsh -c`) is itself a xonsh program, so it is compared by *its* canonical tree,
-    not byte for byte (when it does not parse, the raw text is compared)."""
+    not byte for byte (when it does not parse, the raw text is compared).  The tree is left unchanged."""
     import ast
 
-    if tree is not None and depth < 5:
-        for node in ast.walk(tree):
-            if not (isinstance(node, ast.BinOp) and isinstance(node.op, ast.Add) and isinstance(node.right, ast.List)):
-                continue
-            r = node.right
-            if len(r.elts) != 2 or not all(isinstance(e, ast.Constant) for e in r.elts) or r.elts[0].value != "-c" \
-                    or not isinstance(r.elts[1].value, str):
-                continue
-            left = node.left
-            if not (_is_exec_list(left) or (isinstance(left, ast.BinOp) and _is_exec_list(left.right))):
-                continue
-            try:
-                inner = canon_tree(xparse(r.elts[1].value), depth + 1, strict)
-            except (_Timeout, _Unjudgeable):
-                raise
-            except Exception:  # noqa: BLE001
-                if strict:
-                    raise _Unjudgeable("subshell text does not parse")
-                continue
-            r.elts[1].value = ("<subshell>", inner)
-    return astcanon.root_canon(tree)
+    undo = []
+    try:
+        if tree is not None and depth < 5:
+            for node in ast.walk(tree):
+                if not (isinstance(node, ast.BinOp) and isinstance(node.op, ast.Add) and isinstance(node.right, ast.List)):
+                    continue
+                r = node.right
+                if len(r.elts) != 2 or not all(isinstance(e, ast.Constant) for e in r.elts) or r.elts[0].value != "-c" \
+                        or not isinstance(r.elts[1].value, str):
+                    continue
+                left = node.left
+                if not (_is_exec_list(left) or (isinstance(left, ast.BinOp) and _is_exec_list(left.right))):
+                    continue
+                try:
+                    inner = canon_tree(xparse(r.elts[1].value), depth + 1, strict)
+                except (_Timeout, _Unjudgeable):
+                    raise
+                except Exception:  # noqa: BLE001
+                    if strict:
+                        raise _Unjudgeable("subshell text does not parse")
+                    continue
+                undo.append((r.elts[1], r.elts[1].value))
+                r.elts[1].value = ("<subshell>", inner)
+        return astcanon.root_canon(tree)
+    finally:
+        for node, val in undo:
+            node.value = val
+
+
+def _accounts_for_names(src, tree):
+    """Precondition on the parser's reading of the *input*: every identifier and number of the source
+    (outside comments) shows up in the tree.  xonsh's line-wrapping recovery sometimes turns a
+    multi-line Python statement into a command made of its first few characters and silently drops the
+    rest; such a tree has no definite meaning to preserve (C02/C03 territory)."""
+    import ast
+
+    xtok = _state["xtok"]
+    if tree is None:
+        return True
+    try:
+        text = ast.unparse(tree)
+    except Exception:  # noqa: BLE001
+        return True
+    try:
+        toks = A.tokenize(src)
+    except Exception:  # noqa: BLE001
+        return True
+    for t in toks:
+        if t.type == xtok.NAME and len(t.string) > 1 and t.string not in text and t.string.isascii():
+            return False
+    return True
 
 
 def scan(src):
@@ -162,6 +192,8 @@ def verdict(ref, cand):
         return "output-unparsable", "the parser raises %s on the formatted text: %s" % (type(e).__name__, str(e)[:120])
     c2 = canon_tree(t2)
     if c2 != ref.canon:
+        if not _accounts_for_names(cand, t2):
+            return "parser-drops-tokens", "the parser's tree for the formatted text does not mention every identifier of that text"
         verdict.flags = A.diff_flags(ref.canon, c2)
         return "tree-differs", astcanon.first_diff(ref.canon, c2) or "?"
     try:
@@ -230,6 +262,9 @@ def check_source(src, family="?", reduce=True, want_labels=True, tolerate=True):
                                         bucket="crash:" + type(e).__name__))
             return res
         res.out = out
+        if not _accounts_for_names(src, tree):
+            res.status = "skip:parser-drops-tokens"
+            return res
         try:
             canon = canon_tree(tree, strict=True)
             coms, nlog = scan(src)
@@ -373,6 +408,12 @@ def _attribute(res, ref, out, script, family, c17_findings, tolerate=True):
                 if len(u) > 1 and any(d["ctx"] == "macro-block" for _, d in u):
                     for _, d in u:
                         d["ctx"] = "macro-block"
+        if v[0] == "tree-differs" and "b-subproc" in verdict.flags and not (verdict.flags & {"subproc", "macro"}):
+            # the input reads the place as Python, only the output as a command
+            for u in us:
+                for _, d in u:
+                    if d["ctx"] == "subproc":
+                        d["ctx"] = "python"
         if v[0] == "tree-differs" and "subproc" in verdict.flags and "macro" not in verdict.flags:
             # the difference shows inside (or is) a subprocess call: the edited text is subprocess text, whatever
             # the statement's reported line number suggested
@@ -386,7 +427,7 @@ def _attribute(res, ref, out, script, family, c17_findings, tolerate=True):
 def _emit(res, ref, kind, detail, units, text, family, c17_findings):
     det = [d for u in units for _, d in u]
     sig = tuple(sorted({(d["rule"], d["shape"], d["ctx"]) for d in det}))
-    why = _exempt(ref, sig, det, text, c17_findings)
+    why = "parser-drops-tokens-of-the-formatted-text" if kind == "parser-drops-tokens" else _exempt(ref, sig, det, text, c17_findings)
     if why:
         res.labels.append("exempt:" + why)
         res.notes.append({"why": why, "src": ref.src[:300], "edits": A.brief(det)[:3]})
@@ -395,6 +436,14 @@ def _emit(res, ref, kind, detail, units, text, family, c17_findings):
     res.failures.append(Failure(kind, {"src": ref.src, "family": family},
                                 "%s | formatter edits that have to be taken back: %s" % (detail, json.dumps(A.brief(det)[:4])),
                                 finding=fid, bucket=fid or "%s:%s" % (kind, "+".join("%s/%s/%s" % x for x in sig[:3]))))
+
+
+def _one_physical_line(d):
+    """the logical line that holds this edit is written on one physical line"""
+    t = d["next"] if d["next"] is not None else d["prev"]
+    if t is None:
+        return True
+    return all(k.line == t.sline for k in d["toks"] if k.sline == t.sline) and "\n" not in d["removed"] and "\n" not in d["inserted"]
 
 
 def _exempt(ref, sig, det, text, c17_findings):
@@ -406,22 +455,32 @@ def _exempt(ref, sig, det, text, c17_findings):
 
     if c17_findings.parser_blank_sensitivity(sig, det):
         return "parser-sensitive-to-width-of-a-blank-run"
-    if not all(ctx in ("python", "token", "fstring") for _, _, ctx in sig):
-        return None
-    # CPython as referee for text that is plain Python: same CPython tree => xonsh's two parses disagree
-    # with each other on equivalent Python (C01 territory, e.g. a recorded shape appears only in the output)
+    pythonish = all(ctx in ("python", "token", "fstring") for _, _, ctx in sig)
+    # CPython as referee for text that is plain Python.  Same CPython tree => as Python the formatter kept the
+    # meaning; what is left is xonsh reading the text as a command (no name is known under ctx=set()).  That
+    # reading is only judged where it is coherent: edits inside subprocess text of a statement written on ONE
+    # physical line (xonsh's recovery of multi-line Python statements as commands drops parts of them, C02/C03).
     if "\r" not in ref.src and "\x0c" not in ref.src:
         try:
             c1 = astcanon.root_canon(pyoracle.cpy_parse(ref.src))
+        except (SyntaxError, ValueError, RecursionError, MemoryError):
+            c1 = None
+        if c1 is not None:
             try:
                 c2 = astcanon.root_canon(pyoracle.cpy_parse(text))
-            except (SyntaxError, ValueError):
+            except (SyntaxError, ValueError, RecursionError, MemoryError):
                 c2 = None
-            if c2 is not None:
-                return "cpython-parses-input-and-output-alike" if c1 == c2 else None
+            if c2 is None or c1 != c2:
+                return None
+            if pythonish:
+                return "cpython-parses-input-and-output-alike"
+            if all(ctx == "subproc" for _, _, ctx in sig) and all(_one_physical_line(d) for d in det):
+                return None
+            if all(ctx in ("subproc", "python", "token", "fstring") for _, _, ctx in sig):
+                return "cpython-parses-alike-and-command-reading-of-a-multi-line-statement"
             return None
-        except (SyntaxError, ValueError, RecursionError, MemoryError):
-            pass
+    if not pythonish:
+        return None
     # not Python: a statement that was Python in the input and is a command in the output only because
     # no name is known (ctx=set()); with every name known both parse alike
     if all(ctx == "python" for _, _, ctx in sig):
